@@ -9,6 +9,7 @@
   issued by PipeData is ordered after the last write of the data, also when it races with it.
 -/
 import SA.Props.C14
+import SA.Proofs.Socks
 namespace SA.Pipe
 
 structure DInv (B : List Nat) (s : St) : Prop where
@@ -281,3 +282,115 @@ end SA.Pipe
 #print axioms SA.Pipe.C17_close_delivers_all
 #print axioms SA.Pipe.C17_prefix_until_close
 #print axioms SA.Pipe.C17_close_happens
+
+/-! ### the built-in SOCKS channel (SA.Model.Socks) -/
+namespace SA.Socks
+
+theorem quiescent_unfold (cw : Bool) (s : SSt) (hq : quiescent cw s = true) :
+    sstep cw s .write = none ∧ sstep cw s .tgtClose = none ∧ sstep cw s .downEnd = none ∧
+    sstep cw s .pipeClose = none ∧ sstep cw s .upEnd = none ∧ sstep cw s .ret = none := by
+  simp only [quiescent, List.all_cons, List.all_nil, Bool.and_true, Bool.and_eq_true, Option.isNone_iff_eq_none] at hq
+  exact hq
+
+/-- **socks_target_close_reaches_app**: the connection handed to the SOCKS server can be half-closed (regenerated fact
+    below).  Then, whatever number of bytes the target writes before it closes and in whatever order the target, the
+    two proxy goroutines, PipeData and ServeConn take their steps, once nothing more can happen the channel's side has
+    received every byte, has seen end-of-stream, and the SOCKS server has returned (its goroutine and the target
+    connection are released). -/
+theorem C17_socks_target_close_reaches_app (n : Nat) (acts : List SAct) (ha : ∀ a ∈ acts, a ≠ .appClose) :
+    let s := srun true (sinit n) acts
+    quiescent true s = true → s.served = true ∧ s.eofDown = true ∧ s.delivered = n ∧ s.dropped = 0 := by
+  intro s hq
+  have inv : TInv n s := srun_tinv n _ (tinv_init n) acts ha
+  obtain ⟨hw, htc, hde, hpc, hue, hr⟩ := quiescent_unfold true s hq
+  have htf : s.tgtFin = true := by
+    cases hf : s.tgtFin with
+    | true => rfl
+    | false =>
+      have hdd : s.downDone = false := by
+        cases hd : s.downDone with
+        | false => rfl
+        | true => have := (inv.down hd).1; rw [hf] at this; cases this
+      simp only [sstep, hf, hdd, and_true] at hw htc
+      by_cases hz : s.toDeliver = 0
+      · simp [hz] at htc
+      · have : 0 < s.toDeliver := Nat.pos_of_ne_zero hz
+        simp [this] at hw
+        split at hw <;> simp at hw
+  have hz : s.toDeliver = 0 := inv.fin htf
+  have hdd : s.downDone = true := by
+    cases hd : s.downDone with
+    | true => rfl
+    | false => simp [sstep, hd, htf, hz] at hde
+  have heof : s.eofDown = true := (inv.down hdd).2
+  have hcc : s.chanClosed = true := by
+    cases hc : s.chanClosed with
+    | true => rfl
+    | false => simp [sstep, heof, hc] at hpc
+  have hud : s.upDone = true := by
+    cases hu : s.upDone with
+    | true => rfl
+    | false => simp [sstep, hcc, hu] at hue
+  have hsv : s.served = true := by
+    cases hv : s.served with
+    | true => rfl
+    | false => simp [sstep, hdd, hud, hv] at hr
+  refine ⟨hsv, heof, ?_, inv.nodrop⟩
+  have := inv.sum; omega
+
+/-- the SOCKS channel of the code as it is hands the library a connection with a CloseWrite method -/
+theorem C17_socks_conn_half_closes : Gen.socksConnHasCloseWrite = true := by decide
+
+/-- **socks_app_close_releases**: when the application leaves first, then in every state in which nothing more can
+    happen the SOCKS server has returned — with or without half-close. -/
+theorem C17_socks_app_close_releases (cw : Bool) (s : SSt) (hq : quiescent cw s = true) (hc : s.chanClosed = true) :
+    s.served = true := by
+  obtain ⟨_, _, hde, _, hue, hr⟩ := quiescent_unfold cw s hq
+  have hdd : s.downDone = true := by
+    cases hd : s.downDone with
+    | true => rfl
+    | false => simp [sstep, hd, hc] at hde
+  have hud : s.upDone = true := by
+    cases hu : s.upDone with
+    | true => rfl
+    | false => simp [sstep, hc, hu] at hue
+  cases hv : s.served with
+  | true => rfl
+  | false => simp [sstep, hdd, hud, hv] at hr
+
+theorem writes_run (cw : Bool) (k : Nat) (s : SSt) (h1 : s.tgtFin = false) (h2 : s.downDone = false) (h3 : s.chanClosed = false)
+    (hk : s.toDeliver = k) :
+    srun cw s (List.replicate k .write) = { s with toDeliver := 0, delivered := s.delivered + k } := by
+  induction k generalizing s with
+  | zero => cases s; simp_all [srun]
+  | succ k ih =>
+    have hpos : 0 < s.toDeliver := by omega
+    simp only [List.replicate_succ, srun, sstep, hpos, h1, h2, h3, and_self, ↓reduceIte, Bool.false_eq_true]
+    rw [ih _ rfl rfl rfl (by show s.toDeliver - 1 = k; omega)]
+    simp only [SSt.mk.injEq, true_and, and_true]
+    omega
+
+/-- **witness_socks_no_half_close**: without a CloseWrite method on that connection (the code before the repair), after
+    the target has written its n bytes and closed nothing more can happen, and the channel's side has not seen
+    end-of-stream and the SOCKS server has not returned: the application waits for ever.  For every n. -/
+theorem C17_witness_socks_no_half_close (n : Nat) :
+    let s := srun false (sinit n) (List.replicate n .write ++ [.tgtClose, .downEnd])
+    quiescent false s = true ∧ s.delivered = n ∧ s.eofDown = false ∧ s.served = false := by
+  intro s
+  have h := writes_run false n (sinit n) rfl rfl rfl rfl
+  have hs : s = { sinit n with toDeliver := 0, delivered := n, tgtFin := true, downDone := true } := by
+    show srun false (sinit n) (List.replicate n .write ++ [.tgtClose, .downEnd]) = _
+    rw [srun_append, h]
+    simp [sinit, srun, sstep]
+  rw [hs]
+  simp [sinit, sstep, quiescent]
+
+/-! non-vacuity -/
+example : quiescent true (settle true 32 (sinit 5)) = true ∧ (settle true 32 (sinit 5)).served = true := by decide
+
+end SA.Socks
+
+#print axioms SA.Socks.C17_socks_target_close_reaches_app
+#print axioms SA.Socks.C17_socks_conn_half_closes
+#print axioms SA.Socks.C17_socks_app_close_releases
+#print axioms SA.Socks.C17_witness_socks_no_half_close
